@@ -29,31 +29,32 @@ Theorem kappa_sure_sound : forall deg p t nx D A B, kappa_terms p t nx = (D, A, 
   (0 < A)%Z -> (0 < B)%Z -> (0 <= Q2R deg < 180)%R ->
   kappa_gt true deg p t nx = true -> (Q2R deg * PI / 180 < kappa_real D A B)%R.
 Proof.
-  intros deg p t nx D A B E HA HB Hd H. unfold kappa_gt in H. rewrite E in H.
+  intros deg p t nx D A B E HA HB Hd H. unfold kappa_gt, kappa_lt_cos in H. rewrite E in H.
   replace (A * B =? 0)%Z with false in H by (symmetry; apply Z.eqb_neq; nia).
-  rewrite <- kappa_real_angle by assumption. now apply angle_gt_sure_sound.
+  rewrite <- kappa_real_angle by assumption. exact (angle_gt_sure_sound deg (2 * D) A B HA HB Hd H).
 Qed.
 
 Theorem kappa_maybe_complete : forall deg p t nx D A B, kappa_terms p t nx = (D, A, B) ->
   (0 < A)%Z -> (0 < B)%Z -> (0 <= Q2R deg < 180)%R ->
   (Q2R deg * PI / 180 < kappa_real D A B)%R -> kappa_gt false deg p t nx = true.
 Proof.
-  intros deg p t nx D A B E HA HB Hd H. unfold kappa_gt. rewrite E.
+  intros deg p t nx D A B E HA HB Hd H. unfold kappa_gt, kappa_lt_cos. rewrite E.
   replace (A * B =? 0)%Z with false by (symmetry; apply Z.eqb_neq; nia).
-  rewrite <- kappa_real_angle in H by assumption. now apply angle_gt_maybe_complete.
+  rewrite <- kappa_real_angle in H by assumption.
+  exact (angle_gt_maybe_complete deg (2 * D) A B HA HB Hd H).
 Qed.
 
 (* as found: coinciding CA atoms make the residue a bend whatever the threshold *)
 Lemma kappa_degenerate : forall sure deg p t nx D A B, kappa_terms p t nx = (D, A, B) ->
   (A * B = 0)%Z -> kappa_gt sure deg p t nx = true.
 Proof.
-  intros sure deg p t nx D A B E H. unfold kappa_gt. rewrite E.
+  intros sure deg p t nx D A B E H. unfold kappa_gt, kappa_lt_cos. rewrite E.
   replace (A * B =? 0)%Z with true by (symmetry; now apply Z.eqb_eq). reflexivity.
 Qed.
 
 (* ------------------------------------------------------------------ the flags the model reads *)
 Lemma geom_flags_length : forall sure deg ca, length (geom_flags sure deg ca) = length ca.
-Proof. intros. unfold geom_flags. now rewrite map_length, seq_length. Qed.
+Proof. intros. unfold geom_flags, geom_flags_k. now rewrite map_length, seq_length. Qed.
 
 Lemma geom_flags_nth : forall sure deg ca i, i < length ca ->
   nth i (geom_flags sure deg ca) false =
@@ -62,7 +63,7 @@ Lemma geom_flags_nth : forall sure deg ca i, i < length ca ->
   | _, _, _ => false
   end.
 Proof.
-  intros sure deg ca i Hi. unfold geom_flags.
+  intros sure deg ca i Hi. unfold geom_flags, geom_flags_k, kappa_gt.
   set (f := fun i0 : nat => _).
   rewrite (nth_indep _ false (f 0)) by (rewrite map_length, seq_length; exact Hi).
   rewrite map_nth, seq_nth by exact Hi. reflexivity.
@@ -92,4 +93,34 @@ Proof.
     rewrite geom_flags_nth by lia.
     replace (2 <=? r) with true by (symmetry; now apply Nat.leb_le).
     rewrite E1, E2, E3. exact G.
+Qed.
+
+(* the bounds compiled into Bend.v are the two ends of the enclosure at threshold +- guard *)
+Lemma bend_bounds_are_the_enclosure :
+  bend_k_sure = cos_bound true (Qplus bend_deg bend_guard) /\
+  bend_k_maybe = cos_bound false (Qminus bend_deg bend_guard).
+Proof. split; vm_compute; reflexivity. Qed.
+
+(* ------------------------------------------------------------------ 'NA' from the atom names *)
+Require Import MD.Hbond.KsModel MD.Hbond.KsWrap MD.Hbond.KsWrapProofs MD.Dssp.Layer.
+From Coq Require Import String.
+
+Lemma skip_of_nth : forall rs r d, r < List.length rs ->
+  skip_at (skip_of rs) r = r_skip (prep_residue (nth r rs d)).
+Proof.
+  intros rs r d Hr. unfold skip_at, skip_of.
+  rewrite (nth_indep _ false (r_skip (prep_residue d))) by (rewrite map_length; exact Hr).
+  now rewrite (map_nth (fun x => r_skip (prep_residue x))).
+Qed.
+
+(* compute_dssp reports 'NA' for residue r iff the residue lacks an atom named N, CA, C or O *)
+Theorem na_iff_backbone_name_missing : forall simp ch rs hb geom r d, r < List.length rs ->
+  (nth r (compute_dssp simp (List.length rs) ch (skip_of rs) hb geom) ""%string = "NA"%string <->
+   ~ (has_atom "N" (nth r rs d) /\ has_atom "CA" (nth r rs d) /\ has_atom "C" (nth r rs d) /\ has_atom "O" (nth r rs d))).
+Proof.
+  intros simp ch rs hb geom r d Hr. rewrite Layer.na_overlay by exact Hr.
+  rewrite (skip_of_nth rs r d Hr). rewrite <- prep_complete_iff.
+  destruct (r_skip (prep_residue (nth r rs d))).
+  - split; [intros _ H; discriminate | reflexivity].
+  - split; [discriminate | intros H; exfalso; now apply H].
 Qed.
